@@ -34,20 +34,20 @@ def one_pair(mon: Monitor, rng: random.Random) -> None:
     from odc.geo.warp import rio_reproject
 
     ttol = rng.choice([0.05, 0.05, 0.01])
-    stol = 1e-3
+    stol = rng.choice([1e-3, 1e-3, 1e-3, 1e-2, 1e-4])
     src, dst, kind, label = pairs.same_crs_pair(rng, ttol=ttol, stol=stol, binary_exact=True)
     H, W = src.shape
     ny, nx = dst.shape
-    wit = lambda extra=None: {"src": gen.gbox_desc(src), "dst": gen.gbox_desc(dst), "kind": kind, "ttol": ttol, "P_dst_to_src": label["P"], **(extra or {})}
+    wit = lambda extra=None: {"src": gen.gbox_desc(src), "dst": gen.gbox_desc(dst), "kind": kind, "ttol": ttol, "stol": stol, "P_dst_to_src": label["P"], **(extra or {})}
     tight = rng.choice([{}, {}, {"padding": 0}, {"align": 0}])
     ri, e = call(compute_reproject_roi, src, dst, ttol=ttol, stol=stol, **tight)
     if e is not None:
         return mon.fail("paste_ok", wit({"exc": e}), key="roi-raises")
-    sig = hsig("p", gen.aff6(src.affine), (H, W), gen.aff6(dst.affine), (ny, nx), ttol)
+    sig = hsig("p", gen.aff6(src.affine), (H, W), gen.aff6(dst.affine), (ny, nx), ttol, stol)
     # ---- paste-ability is reported exactly for integer scale + whole-pixel shift within tolerance
     if label["paste"] is not None:
         mon.check(bool(ri.paste_ok) == label["paste"], "paste_ok", lambda: wit({"paste_ok": ri.paste_ok, "expected": label["paste"], "roi_src": _sl(ri.roi_src), "roi_dst": _sl(ri.roi_dst)}),
-                  key="paste-ok-wrong" + ("-accepts" if ri.paste_ok else "-rejects"), cls=f"{kind}|{'paste' if label['paste'] else 'no-paste'}", sig=sig, sample=wit({"paste_ok": ri.paste_ok}))
+                  key="paste-ok-wrong" + ("-accepts" if ri.paste_ok else "-rejects"), cls=f"{kind}|{'paste' if label['paste'] else 'no-paste'}" + ("" if stol == 1e-3 else f"|stol={stol:g}"), sig=sig, sample=wit({"paste_ok": ri.paste_ok}))
     if not ri.paste_ok:
         return
     P = np.array(label["P"]).reshape(2, 3)
@@ -115,7 +115,7 @@ def run(mon: Monitor, tier: str, seed: int, shard: int, nshards: int) -> None:
             mon.error("pair", e)
     mon.case = None
     for pt, k in [("paste_ok", 1000), ("paste==warp", 2000), ("paste.shrink", 50), ("paste_ok|subpix|paste", 30), ("paste_ok|subpix|no-paste", 30), ("paste_ok|rot|no-paste", 50),
-                  ("paste_ok|fscale|no-paste", 50), ("paste_ok|scale|paste", 30), ("paste_ok|scale|no-paste", 10), ("paste_ok|mirror|paste", 50),
+                  ("paste_ok|fscale|no-paste", 50), ("paste_ok|scale|paste", 30), ("paste_ok|scale|no-paste", 10), ("paste_ok|scale|paste|stol=0.01", 5), ("paste_ok|scale|paste|stol=0.0001", 5), ("paste_ok|mirror|paste", 50),
                   ("paste==warp|int8|overlap|plain", 30), ("paste==warp|bool|overlap|plain", 30), ("paste==warp|float64|overlap|mirror", 10), ("paste==warp|uint16|disjoint|plain", 10)]:
         mon.floor(pt, k)
 
